@@ -235,6 +235,29 @@ Theorem C16_par_smooth_step_through_package_exact (exact : F -> Prop) (w : world
   sub (den P i j) (sumF (map (fun k => mul (den sA i k) (den P k j)) (seq 0 (csr_nc sA)))).
 Proof. exact (par_smooth_step_pkg_exact F zero one add mul sub opp (F_R Fth) small2 small exact w ids colmaps big sA P pa pc i j). Qed.
 
+(* ... and the whole loop of par_prolongation.cpp: k steps, every product fetched through the package (the set of rows
+   a rank needs depends on sA only, so one package serves all steps): the gathered result is (I - sA)^k P, the value
+   C16_smooth_exact gives for the sequential routine - for every partition pa / pc, every package accepted by the id
+   check whose column maps cover the off-process columns of sA, and every k *)
+Theorem C16_par_smooth_k_steps_through_package (exact : F -> Prop) (w : world) (ids colmaps : list (list nat))
+        (big : nat) (sA P : csr F) (pa pc : list nat) k i j :
+  exact zero -> (forall x y, exact x -> exact y -> exact (add x y)) ->
+  (forall x y, exact x -> exact y -> exact (mul x y)) -> (forall x, exact x -> exact (opp x)) ->
+  (forall x, exact x -> small2 x = true -> x = zero) -> (forall x, exact x -> small x = true -> x = zero) ->
+  csr_wf sA -> csr_nc sA = csr_nr sA -> psum pa = csr_nr sA ->
+  fwd_ok w ids colmaps big = true -> csr_nr sA <= big ->
+  (forall r k, needs F sA pa pa r k = true -> r < length w /\ In k (nth r colmaps [])) ->
+  (forall i k, exact (den sA i k)) ->
+  csr_wf P -> csr_nr P = csr_nr sA -> (forall k j, exact (den P k j)) -> i < csr_nr sA ->
+  den (par_smooth_iter_pkg F zero add mul opp small2 small w ids colmaps k sA P pa pc) i j =
+  smooth_exact F zero add mul sub (csr_nr sA) (den sA) (den P) k i j.
+Proof.
+  intros I0 Ia Im Io Is1 Is2 HA Hsq Hp Hok Hbig Hneed IA HP Hn IP Hi.
+  apply (par_smooth_iter_pkg_exact F zero one add mul sub opp (F_R Fth) small2 small exact I0 Ia Im Io Is1 Is2
+           w ids colmaps big sA pa pc HA Hsq Hp Hok Hbig Hneed IA k P); [|exact Hi].
+  split; [exact HP|split; [exact Hn|exact IP]].
+Qed.
+
 End C16.
 
 Print Assumptions C16_shapes.
@@ -254,6 +277,7 @@ Print Assumptions C16_par_T_eq_seq.
 Print Assumptions C16_par_smooth_eq_seq_partial.
 Print Assumptions C16_par_smooth_step_through_package.
 Print Assumptions C16_par_smooth_step_through_package_exact.
+Print Assumptions C16_par_smooth_k_steps_through_package.
 
 (* ---------- non-vacuity: every hypothesis above is satisfiable, at the executed instance Qc ---------- *)
 From Coq Require Import QArith Qcanon.
@@ -392,9 +416,11 @@ Example C16_par_smooth_step_through_package_nonvacuous :
   (forall r k, needs Z ex_sA [1; 1]%nat [1; 1]%nat r k = true -> (r < length exw)%nat /\ In k (nth r [[1]; []]%nat [])) /\
   needs Z ex_sA [1; 1]%nat [1; 1]%nat 0 1 = true /\
   csr_rows (par_smooth_step_pkg Z 0%Z Z.add Z.mul Z.opp Zis0 Zis0 exw [[0]; [1]]%nat [[1]; []]%nat ex_sA ex_P
-              [1; 1]%nat [1; 0]%nat) = [[(0%nat, 1%Z)]; [(0%nat, 1%Z)]].
+              [1; 1]%nat [1; 0]%nat) = [[(0%nat, 1%Z)]; [(0%nat, 1%Z)]] /\
+  csr_rows (par_smooth_iter_pkg Z 0%Z Z.add Z.mul Z.opp Zis0 Zis0 exw [[0]; [1]]%nat [[1]; []]%nat 2 ex_sA ex_P
+              [1; 1]%nat [1; 0]%nat) = [[(0%nat, (-1)%Z)]; [(0%nat, (-1)%Z)]].
 Proof.
-  split; [reflexivity|split; [|split; reflexivity]].
+  split; [reflexivity|split; [|split; [reflexivity|split; reflexivity]]].
   intros r k H. destruct r as [|[|r]].
   - vm_compute in H. destruct k as [|[|k]]; try discriminate. split; [simpl; lia|left; reflexivity].
   - vm_compute in H. discriminate.
